@@ -232,6 +232,10 @@ func init() {
 		props[id].Harnesses = append(props[id].Harnesses, HarnessSpec{Name: "VH_C01_results_isolated", Replay: "native", Unwind: 400})
 	}
 	props["C02"].Harnesses = append(props["C02"].Harnesses, HarnessSpec{Name: "VH_C17_pooled_memory", Replay: "race", Unwind: 400})
+	for _, id := range []string{"C13", "C14"} {
+		// the shared signing context every outgoing signature is made with
+		props[id].Harnesses = append(props[id].Harnesses, HarnessSpec{Name: "VH_C17_signing_context_race", Replay: "race", Unwind: 2000})
+	}
 	trust := HarnessSpec{Name: "VH_C02_trust_store", Replay: "native", Unwind: 400}
 	for _, id := range []string{"C01", "C02", "C04", "C10"} {
 		props[id].Harnesses = append(props[id].Harnesses, trust)
